@@ -210,12 +210,12 @@ class DSDLTemplateLoader(BaseLoader):
         if self._fsloader is not None:
             filtered_templates = self._filter_template_list_by_suffix(self._fsloader.list_templates())
             template_path = self._type_to_template_internal(
-                value_type, dict(map(lambda x: (pathlib.Path(x).stem, pathlib.Path(x)), filtered_templates))
+                value_type, {pathlib.Path(x).stem: pathlib.Path(x) for x in filtered_templates if "/" not in x}
             )
         if template_path is None and self._package_loader is not None:
             filtered_templates = self._filter_template_list_by_suffix(self._package_loader.list_templates())
             template_path = self._type_to_template_internal(
-                value_type, dict(map(lambda x: (pathlib.Path(x).stem, pathlib.Path(x)), filtered_templates))
+                value_type, {pathlib.Path(x).stem: pathlib.Path(x) for x in filtered_templates if "/" not in x}
             )
 
         return template_path
